@@ -155,8 +155,8 @@ KpGoodD(f, dev) ==
 KpAllCls(f) ==
     CASE f = "kind"    -> {"443", "444", "445", "1"}
       [] f = "pv"      -> {"ok", "missing", "novalue", "wrong", "dupok", "dupbad"}
-      [] f = "cs"      -> {"ok", "missing", "novalue", "wrong", "short", "nothex", "noprefix", "utf8", "dupok", "dupbad"}
-      [] f = "ext"     -> {"ok", "upper", "extra", "reordered", "missing", "novalue", "nof2ee", "no000a", "malformed", "utf8", "dupok", "dupbad"}
+      [] f = "cs"      -> {"ok", "missing", "novalue", "wrong", "short", "nothex", "noprefix", "utf8s1", "utf8s2", "utf8s3", "utf8in", "dupok", "dupbad"}
+      [] f = "ext"     -> {"ok", "upper", "extra", "reordered", "missing", "novalue", "nof2ee", "no000a", "malformed", "utf8s1", "utf8s2", "utf8s3", "utf8in", "dupok", "dupbad"}
       [] f = "relays"  -> {"one", "two", "three", "missing", "empty", "badurl", "dupok", "dupbad"}
       [] f = "i"       -> {"ok", "upper", "missing", "novalue", "empty", "nothex", "mismatch", "short", "twovalues", "utf8", "dupok", "dupbad"}
       [] f = "enc"     -> {"ok", "upper", "missing", "novalue", "hex", "dupok", "dupbad"}
